@@ -69,7 +69,7 @@ Definition flat_parts (parts : list (row * row)) : list row := flat_map (fun p =
 Theorem resolve_groups_partition f1 f2 maxdiff gs : Forall (group_shape f1 f2) gs ->
   forall joined sep, resolve_groups maxdiff gs = Ok (joined, sep) ->
   exists parts,
-    Forall2 (fun p j => check_overlap (fst p) (snd p) maxdiff = true /\ join_rows (fst p) (snd p) = Ok j) parts joined /\
+    Forall2 (fun p j => check_overlap (fst p) (snd p) maxdiff = true /\ join_rows (fst p) (snd p) = Ok j /\ joined_ok j = true) parts joined /\
     Forall (fun p => In (fst p) f1 /\ In (snd p) f2 /\ qid (fst p) = qid (snd p) /\ rid (fst p) = rid (snd p)) parts /\
     Permutation (concat gs) (sep ++ flat_parts parts).
 Proof.
@@ -82,13 +82,16 @@ Proof.
     + cbn [fst snd] in H. injection H as <- <-. exists parts. repeat split; [exact HF2 | exact HF|].
       cbn [app]. constructor. exact HP.
     + destruct (check_overlap x y maxdiff) eqn:Eo.
-      * destruct (join_rows x y) as [j|] eqn:Ej; [|discriminate]. cbn [bind fst snd] in H. injection H as <- <-.
-        exists ((x, y) :: parts). repeat split.
-        -- constructor; [split; assumption | exact HF2].
-        -- constructor; [repeat split; assumption | exact HF].
-        -- unfold flat_parts. cbn [flat_map fst snd]. fold (flat_parts parts).
-           etransitivity; [apply (Permutation_app_head [x; y]); exact HP|].
-           apply (Permutation_app_swap_app [x; y] st (flat_parts parts)).
+      * destruct (join_rows x y) as [j|] eqn:Ej; [|discriminate]. cbn [bind fst snd] in H.
+        destruct (joined_ok j) eqn:Ek; injection H as <- <-.
+        -- exists ((x, y) :: parts). repeat split.
+           ++ constructor; [repeat split; assumption | exact HF2].
+           ++ constructor; [repeat split; assumption | exact HF].
+           ++ unfold flat_parts. cbn [flat_map fst snd]. fold (flat_parts parts).
+              etransitivity; [apply (Permutation_app_head [x; y]); exact HP|].
+              apply (Permutation_app_swap_app [x; y] st (flat_parts parts)).
+        -- (* repair F9: overlap and join Ok, but the joined row has no pair: both parts stay un-joined *)
+           exists parts. repeat split; [exact HF2 | exact HF|]. cbn [app]. do 2 constructor. exact HP.
       * cbn [fst snd] in H. injection H as <- <-. exists parts. repeat split; [exact HF2 | exact HF|].
         cbn [app]. do 2 constructor. exact HP.
 Qed.
@@ -97,7 +100,7 @@ Qed.
 Theorem results_resolve_partition f1 f2 maxdiff joined sep :
   NoDup (map qid f1) -> NoDup (map qid f2) -> results_resolve (f1 ++ f2) maxdiff = Ok (joined, sep) ->
   exists parts,
-    Forall2 (fun p j => check_overlap (fst p) (snd p) maxdiff = true /\ join_rows (fst p) (snd p) = Ok j) parts joined /\
+    Forall2 (fun p j => check_overlap (fst p) (snd p) maxdiff = true /\ join_rows (fst p) (snd p) = Ok j /\ joined_ok j = true) parts joined /\
     Forall (fun p => In (fst p) f1 /\ In (snd p) f2 /\ qid (fst p) = qid (snd p) /\ rid (fst p) = rid (snd p)) parts /\
     Permutation (f1 ++ f2) (sep ++ flat_parts parts).
 Proof. intros H1 H2 H. rewrite results_resolve_unfold in H.
